@@ -43,6 +43,7 @@ type World struct {
 	// failpoints armed for the current block: point -> remaining hits to skip before failing (0 = fail at first hit)
 	failAt map[string]int
 	Links  map[string]*Link // consumer name -> IBC link info
+	updPlanned map[string]uint64
 }
 
 // Link holds the IBC identifiers of the provider<->consumer connection as the relayer knows them.
@@ -58,7 +59,7 @@ func NewWorld(t testing.TB, cfg Config) *World {
 	w := &World{T: t, Cfg: cfg, N: newNames(), Genesis: genesis, Now: genesis,
 		Chains: map[string]*Chain{}, ByChainID: map[string][]*Chain{},
 		Signers: map[string]cmttypes.PrivValidator{}, ValKey: map[string]string{},
-		failAt: map[string]int{}, Links: map[string]*Link{}}
+		failAt: map[string]int{}, Links: map[string]*Link{}, updPlanned: map[string]uint64{}}
 	w.N.Signers = w.Signers
 	w.Coord = &ibctesting.Coordinator{T: nil, CurrentTime: genesis, Chains: map[string]*ibctesting.TestChain{}}
 	w.rec = &Recorder{w: w}
@@ -206,7 +207,16 @@ func (w *World) needsUpdate(dst *Chain, clientID string, src *Chain) bool {
 	if !ok {
 		return false
 	}
-	return cur.RevisionHeight < uint64(src.App.LastBlockHeight())
+	k := dst.Name + "|" + clientID
+	h := uint64(src.App.LastBlockHeight())
+	if w.updPlanned[k] >= h {
+		return false
+	}
+	if cur.RevisionHeight < h {
+		w.updPlanned[k] = h
+		return true
+	}
+	return false
 }
 
 // RelayTxs returns the transactions that deliver up to n pending packets from src to dst over (port, channel of src).
@@ -299,11 +309,22 @@ type Recorder struct {
 	events []map[string]any
 	// light mode: only block-level snapshots for chains/blocks that are not under test
 	light bool
+	lastSnap map[string]string
 }
 
 func (r *Recorder) skipSnap(c *Chain, point string) bool { return false }
 
-func (r *Recorder) Start() { r.on = true; r.events = nil }
+// Start begins a new trace: the first line is an "Init" event carrying the run constants and the provider state.
+func (r *Recorder) Start() {
+	r.on = true
+	r.lastSnap = map[string]string{}
+	w := r.w
+	cfg := map[string]any{}
+	b, _ := json.Marshal(w.Cfg)
+	_ = json.Unmarshal(b, &cfg)
+	ctx := w.P.GetContext()
+	r.emit("p", "Init", map[string]any{"cfg": cfg, "gov": "gov"}, nil, w.projectProvider(w.P, ctx))
+}
 
 func (r *Recorder) emit(chain, a string, args any, res any, s map[string]any) {
 	if !r.on {
@@ -316,9 +337,19 @@ func (r *Recorder) emit(chain, a string, args any, res any, s map[string]any) {
 		res = map[string]any{}
 	}
 	if s == nil {
-		s = map[string]any{}
+		s = map[string]any{"same": true}
+	} else {
+		b, _ := json.Marshal(s)
+		if r.lastSnap == nil {
+			r.lastSnap = map[string]string{}
+		}
+		if a != "Init" && r.lastSnap[chain] == string(b) {
+			s = map[string]any{"same": true}
+		} else {
+			r.lastSnap[chain] = string(b)
+		}
 	}
-	r.events = append(r.events, map[string]any{"i": len(r.events) + 1, "chain": chain, "a": a, "args": args, "res": res, "s": s})
+	r.events = append(r.events, map[string]any{"i": len(r.events) + 1, "chain": chain, "a": a, "args": sanitize(args), "res": sanitize(res), "s": s})
 }
 
 // blockEvents turns the hook events buffered during one FinalizeBlock into trace lines.
@@ -418,4 +449,43 @@ func (r *Recorder) WriteTrace(path string) error {
 		bw.WriteByte('\n')
 	}
 	return bw.Flush()
+}
+
+// sanitize makes a value safe for TLC's Json module: no nulls, typed slices become generic lists.
+func sanitize(v any) any {
+	switch x := v.(type) {
+	case nil:
+		return []any{}
+	case map[string]any:
+		out := map[string]any{}
+		for k, e := range x {
+			out[k] = sanitize(e)
+		}
+		return out
+	case map[string]string:
+		out := map[string]any{}
+		for k, e := range x {
+			out[k] = e
+		}
+		return out
+	case []any:
+		out := make([]any, 0, len(x))
+		for _, e := range x {
+			out = append(out, sanitize(e))
+		}
+		return out
+	case []string:
+		out := make([]any, 0, len(x))
+		for _, e := range x {
+			out = append(out, e)
+		}
+		return out
+	case []int:
+		out := make([]any, 0, len(x))
+		for _, e := range x {
+			out = append(out, e)
+		}
+		return out
+	}
+	return v
 }
